@@ -299,7 +299,7 @@ func runC19(r *R) {
 			// header map replaced (not shared with req.Header)
 			fresh := false
 			for _, st := range StoresToField(fn, "net/http.Request", "Header") {
-				if _, ok := Resolve1(st.Val).(*ssa.MakeMap); ok && Before(st, setAuth.(ssa.Instruction)) && st.Block().Dominates(setAuth.Block()) {
+				if _, ok := Resolve1(st.Val).(*ssa.MakeMap); ok && Before(st, setAuth.(ssa.Instruction)) && Precedes(st, setAuth) {
 					fresh = true
 				}
 			}
@@ -320,8 +320,12 @@ func runC19(r *R) {
 				r.Check(ok, "C19-R4", fn, "ParseQuery before return", ret.Pos(), "query is parsed (percent-decoded) on every success path", "a success return bypasses url.ParseQuery: an api_token query parameter (e.g. with an escaped name) is forwarded unsalted")
 			}
 			nDel := 0
-			for _, c := range CallsIn(fn, "builtin.delete") {
-				if k, _ := ConstString(c.Common().Args[1]); k == "api_token" {
+			for _, c := range CallsMatching(fn, func(nm string, _ *ssa.CallCommon) bool { return nm == "builtin.delete" || nm == "(net/url.Values).Del" }) {
+				fromQuery := false
+				if pc, idx := ResultOf(Resolve1(c.Common().Args[0])); pc != nil && idx == 0 && CalleeName(pc.Common()) == "net/url.ParseQuery" {
+					fromQuery = true
+				}
+				if k, _ := ConstString(c.Common().Args[1]); k == "api_token" && fromQuery {
 					nDel++
 					// only conditional on presence
 					g, _ := Guard(fn, nil, c.(ssa.Instruction), TrueC("_, ok := values[\"api_token\"]", func(v ssa.Value) bool {
@@ -405,7 +409,7 @@ func runC19(r *R) {
 			if !nonnil {
 				continue
 			}
-			ok := last != nil && last.Block().Dominates(ret.Block())
+			ok := last != nil && Precedes(last, ret)
 			if ok {
 				c, idx := ResultOf(Resolve1(last.Val))
 				ok = c != nil && idx == 0 && CalleeName(c.Common()) == authP+".SaltToken" && same(c.Call.Args[1], paramOf(fn, "remoteID")) && tokenParamOrigin(c.Call.Args[0], fn)
